@@ -71,7 +71,18 @@ CHECKS['C16'] = dict(
 NOT_YET = {}
 
 
+def load_fragments():
+    import glob
+    for f in sorted(glob.glob(os.path.join(VERIF, 'manifest', 'C*.json'))):
+        pid = os.path.basename(f)[:-5]
+        d = json.load(open(f))
+        if os.path.exists(os.path.join(VERIF, 'harness', 'props', pid.lower() + '.py')):
+            CHECKS[pid] = dict(level=d['level'], text=d['text'], note=BASE_NOTE + d['note'], technique=d['technique'],
+                               design=d.get('design', '§5 ' + pid))
+
+
 def main():
+    load_fragments()
     props = [json.loads(l) for l in open(os.path.join(VERIF, 'properties.jsonl'))]
     checks = []
     na = []
